@@ -244,6 +244,48 @@ func (x *UDiff) Compare(y *UDiff) int {
 	return far(x.Minor, y.Minor)
 }
 
+// FK and IK are comparable key structs: a float, resp. a machine int, next to another component.
+type FK struct {
+	X float64
+	N string
+}
+
+type IK struct {
+	T int
+	N string
+}
+
+type KeyMaps struct {
+	F map[FK]int
+	A map[[2]float32]string
+	I map[IK]string
+	B map[[2]uint8]int
+}
+
+// Unit has nothing to compare, OnlyPad only padding.
+type Unit struct{}
+
+type OnlyPad struct{ _ int32 }
+
+type Units struct {
+	U  *Unit
+	P  *OnlyPad
+	Us []*Unit
+	M  map[string]*Unit
+	Z  int
+}
+
+// NPath and []Vtx are a named/unnamed pair with one underlying type (Vtx is
+// used nowhere else, so that no other case's named slice type competes).
+type Vtx struct{ X, Y int }
+
+type NPath []Vtx
+
+type Shape struct {
+	Outline NPath
+	Holes   *[]Vtx
+}
+
 // Anon has anonymous struct fields (Equal, Hash and GoString take them; Compare
 // and DeepCopy refuse them with a diagnostic).
 type Anon struct {
@@ -401,6 +443,9 @@ func structTys() []*Ty {
 		mk("Anon", false, "anon"),
 		mk("Und", false, "unexported", "localpriv"),
 		mk("Twin", false),
+		mk("KeyMaps", false),
+		mk("Units", false),
+		mk("Shape", false),
 		mk("Pad", false, "unexported", "localpriv"),
 		mk("ext.Win", true, "ext", "unexported", "extpriv"),
 		mk("Wins", false, "ext", "unexported", "extpriv"),
